@@ -25,7 +25,7 @@ def run(ctx, out):
     # an ulp for e.g. 6-min steps at 3 mm/h), at the foot of a rise on dry samples after a light shower: the two
     # places that use the product (interstorm flags, rise detection) must agree; own stream
     rng_u = C.rng_for(seed, PROP, 'ulp')
-    recs_foot = [G.gen_foot_record(rng_u) for _ in range(40 if tier == 'quick' else 400)]
+    recs_foot = [G.gen_foot_record(rng_u) for _ in range(60 if tier == 'quick' else 600)]
     K.count_foot(recs_foot, out)
     K.check_cl(recs_cl + recs_foot, out, KEEP, PROP, 'cl')
     K.command_probes(out, PROP)
@@ -36,7 +36,10 @@ def run(ctx, out):
                 '(load, classify), one case per gap-free stretch AND one case per dataset for the whole command '
                 '(all rows of thresholds, grid_time_flags, storm, zeta_interval, zeta_interval_storm, or the kind of '
                 'exception, against classify_command evaluated in Coq; loaded_ok evaluated on the stretches read '
-                'from the database); boundary probes: no data interval, infinite level, NaN threshold. Non-trivial: at least one pair recorded and '
+                'from the database); "foot" records: (step, jump threshold) pairs for which threshold x step rounds '
+                'differently under different orders of evaluation, rises beginning with increments exactly equal to each '
+                'candidate product on dry samples after a light shower; '
+                'boundary probes: no data interval, infinite level, NaN threshold. Non-trivial: at least one pair recorded and '
                 'some storm or rise has >= 2 candidates (contention); distinct by flag vectors / graph.')
     out.samples = [dict(level='MS', record=recs[0]), dict(level='GS', cands=str(graphs[1][0]), prefs=str(graphs[1][1]))]
     out.assumptions += ['schedule of the Python set is not observable: exact comparison when the outcome is '
